@@ -71,6 +71,7 @@ type vLoop struct {
 	localTS    uint64
 	storeFails int
 	kinds      int
+	twoRemotes bool
 }
 
 func vRemoteSnapshot(ts uint64, val []byte) []byte {
@@ -91,8 +92,33 @@ func vRemoteSnapshot(ts uint64, val []byte) []byte {
 func (l *vLoop) addRemote() {
 	l.remoteName++
 	name := "db__other__20240101-00000" + string(rune('0'+l.remoteName)) + "-000000000__GX.pb.gz"
-	_ = l.st.Store(context.Background(), name, vRemoteSnapshot(l.remoteTS, l.remoteVal))
+	ts := l.remoteTS
+	if l.twoRemotes {
+		ts += uint64(l.remoteName) // every snapshot of "other" carries newer data: each load commits
+	}
+	_ = l.st.Store(context.Background(), name, vRemoteSnapshot(ts, l.remoteVal))
 	l.st.log = l.st.log[:len(l.st.log)-1] // not an upload of this instance
+	if l.twoRemotes {
+		// a second remote instance publishes in the same poll window
+		name2 := "db__third__20240101-00000" + string(rune('0'+l.remoteName)) + "-000000000__GX.pb.gz"
+		_ = l.st.Store(context.Background(), name2, vRemoteSnapshotKey("third", "t", l.remoteTS+uint64(l.remoteName), []byte{byte('0' + l.remoteName)}))
+		l.st.log = l.st.log[:len(l.st.log)-1]
+	}
+}
+
+func vRemoteSnapshotKey(inst, key string, ts uint64, val []byte) []byte {
+	snap := &snapshot.Snapshot{FormatVersion: 3, CompatVersion: 1}
+	snap.Meta.InstanceID = inst
+	snap.Meta.DatabaseName = "db"
+	d := snapshot.NewDBISize(64)
+	d.SetName("d")
+	d.Append(snapshot.KV{Key: []byte(key), Value: val, TimestampNano: ts})
+	snap.Databases = append(snap.Databases, d)
+	blob, _, err := snapshot.DumpData(snap)
+	if err != nil {
+		panic(err)
+	}
+	return blob
 }
 
 // appCommit lets the application commit one transaction.
@@ -196,7 +222,11 @@ func vRunLoop(native bool, maxIter, commitIter, maxCommits, kinds int, newRemote
 }
 
 func vRunLoopOpt(native, receiveOnly bool, maxIter, commitIter, maxCommits, kinds int, newRemote []int, storeFails int) *vLoop {
-	l := &vLoop{native: native, maxIter: maxIter, commitIter: commitIter, maxCommits: maxCommits, newRemote: newRemote, kinds: kinds, storeFails: storeFails}
+	return vRunLoopOpt2(native, receiveOnly, false, maxIter, commitIter, maxCommits, kinds, newRemote, storeFails)
+}
+
+func vRunLoopOpt2(native, receiveOnly, twoRemotes bool, maxIter, commitIter, maxCommits, kinds int, newRemote []int, storeFails int) *vLoop {
+	l := &vLoop{twoRemotes: twoRemotes, native: native, maxIter: maxIter, commitIter: commitIter, maxCommits: maxCommits, newRemote: newRemote, kinds: kinds, storeFails: storeFails}
 	l.env = zz.NewEnv()
 	l.st = &vStore{}
 	l.ctx = vNewLoopCtx()
@@ -220,6 +250,9 @@ func vRunLoopOpt(native, receiveOnly bool, maxIter, commitIter, maxCommits, kind
 	}
 	l.remoteTS = zz.NondetU64("remote.ts")
 	zz.Assume(l.remoteTS > 0)
+	if twoRemotes {
+		zz.Assume(l.remoteTS < 1<<63)
+	}
 	l.remoteVal = zz.NondetBytes("remote.val", 1)
 	l.addRemote()
 	l.s = vFullSyncer(l.env, l.st, "inst", native, func(c *config.Config, lc *config.LMDB, opt *Options) {
@@ -229,7 +262,7 @@ func vRunLoopOpt(native, receiveOnly bool, maxIter, commitIter, maxCommits, kind
 		opt.ReceiveOnly = receiveOnly
 	})
 	l.r = receiver.New(l.st, l.s.c, "db", l.s.l, "inst", l.s.events, l.s.hooks)
-	l.r.VerifPrepare("other", "inst")
+	l.r.VerifPrepare("other", "inst", "third")
 	VerifYield = l.yield
 	// the start-up listing and downloads
 	l.r.VerifPlay(l.ctx, true, true)
@@ -393,3 +426,20 @@ func VerifLoopNativeReceiveOnly() {
 	zz.Assert(l.st.count("store", false) == 0, "C12/receive-only/loop-never-stores")
 	zz.Reach("C03/receiveonly/done")
 }
+
+// VerifLoopTwoRemotes: two remote instances publish new data in the same poll window, so one
+// pass of the loop loads two snapshots; no application commit: nothing may be uploaded after
+// the start-up snapshot (C10), in both modes.
+func verifLoopTwoRemotes(native bool) {
+	l := vRunLoopOpt2(native, false, true, 4, 0, 0, 1, []int{2, 3}, 0)
+	if l == nil {
+		return
+	}
+	zz.Assert(l.st.count("store", true) == 1, "C10/loop/no-echo-upload-after-batch-load")
+	app, _ := zz.Dump(l.env, "d")
+	zz.Assert(vFind(app, []byte("t")) != nil, "C10/loop/both-remote-snapshots-merged")
+	zz.Reach("C10/loop/tworemotes/done")
+}
+
+func VerifLoopTwoRemotesNative() { verifLoopTwoRemotes(true) }
+func VerifLoopTwoRemotesShadow() { verifLoopTwoRemotes(false) }
